@@ -177,7 +177,7 @@ impl<'a> Cx<'a> {
 }
 
 /// Input class used in site keys; a predicate of the input alone (decided by the oracle).
-fn input_class(inp: &Input, scale: f64, eps: f64) -> &'static str {
+pub fn input_class(inp: &Input, scale: f64, eps: f64) -> &'static str {
     if inp.rank == 0 {
         "zero-matrix"
     } else if inp.sv[inp.rank - 1] * scale <= 4.0 * eps {
@@ -188,10 +188,10 @@ fn input_class(inp: &Input, scale: f64, eps: f64) -> &'static str {
     } else if inp.rank < inp.n {
         // non-trivial null space (rank-deficient, or wide): A has an exactly zero singular value
         "rank<n"
-    } else if inp.sv[0] * scale <= 1048576.0 * eps {
-        // |A|_2 <= 2^20 * eps_T (absolute): quantities that are significant relative to |A| (down
-        // to 1/cond = 1e-6) can still be below the absolute constant T::epsilon()
-        "norm-below-2^20eps-absolute"
+    } else if inp.sv[0] * scale <= 1.0 / 64.0 {
+        // |A|_2 <= 2^-6 (absolute): a matrix that has been scaled down. A quantity q dropped because
+        // q <= T::epsilon() is then significant relative to |A| (q/|A| up to 64*eps_T and more)
+        "norm-below-2^-6-absolute"
     } else {
         "full-column-rank"
     }
@@ -200,7 +200,7 @@ fn input_class(inp: &Input, scale: f64, eps: f64) -> &'static str {
 /// In the three input regimes in which comparisons with the ABSOLUTE constant T::epsilon() decide
 /// branches of QR / SVD, all accuracy clauses of an operation share one clause key.
 fn in_abs_eps_regime(cls: &str) -> bool {
-    matches!(cls, "sigma-min-below-4eps-absolute" | "norm-below-2^20eps-absolute" | "rank<n")
+    matches!(cls, "sigma-min-below-4eps-absolute" | "norm-below-2^-6-absolute" | "rank<n")
 }
 
 const ACCURACY_CLAUSES: &[&str] = &[
